@@ -30,7 +30,9 @@ EPS == IF F32 THEN [s |-> 1, m |-> <<1250, 5078, 2895, 9209, 11>>] ELSE [s |-> 1
 \* spec-side truncation: (k + 8) units of 10^-24 per unit of magnitude
 Delta(k, S) == [s |-> 1, m |-> BMulSmall(BAdd(BShr(S.m, FRAC), <<1>>), k + 8)]
 \* A(k, D, t, S) = eps * (16 k + D t) * S + delta        (16 k + D t stays < 200000 for t <= 20000)
-Allow(k, D, t, S) == FxAdd(FxMul(FxMulInt(EPS, 16 * k + D * t), S), Delta(k, S))
+\* (small multipliers go through MulInt, whose limb products must stay below 2^31; large ones -- soak runs -- through Mul)
+Allow(k, D, t, S) == LET c == 16 * k + D * t
+                     IN  FxAdd(FxMul(IF c < 200000 THEN FxMulInt(EPS, c) ELSE FxMul(EPS, FxFromInt(c)), S), Delta(k, S))
 
 Abs(v, tol) == [kind |-> "abs", v |-> v, tol |-> tol]
 
@@ -126,7 +128,7 @@ NExpect(s, p, h, r, x, t, M) ==
       [] s = "HeikinAshi" -> LET q == HAStep(r, x)
                              IN  [st |-> q.st, exp |-> [kind |-> "candle", c |-> q.out, tol |-> Allow(8, 0, t, M)]]
       [] s = "Integral0" -> LET q == CumStep(r, x)
-                            IN  [st |-> q.st, exp |-> Abs(q.out, Allow(1, 8, t, FxMulInt(M, IF t < 20000 THEN t ELSE 20000)))]
+                            IN  [st |-> q.st, exp |-> Abs(q.out, Allow(1, 8, IF t < 20000 THEN t ELSE 20000, FxMulInt(M, IF t < 20000 THEN t ELSE 20000)))]
       [] s = "ADI0" -> LET q == CumStep(r, FxMul(CLV(x), x.v))
-                       IN  [st |-> q.st, exp |-> Abs(q.out, Allow(2, 8, t, FxMulInt(M, IF t < 20000 THEN t ELSE 20000)))]
+                       IN  [st |-> q.st, exp |-> Abs(q.out, Allow(2, 8, IF t < 20000 THEN t ELSE 20000, FxMulInt(M, IF t < 20000 THEN t ELSE 20000)))]
 =============================================================================
